@@ -174,8 +174,8 @@ CLAIMED = {
              'independent encoder (harness/smppref.py) are fed to the real parse_header/from_pdu and to the model; the real pdu() bytes are '
              'compared octet by octet with the independent encoder.',
         note='Trusted: Coq kernel, Spec/Smpp34.v and smppref.py as transcriptions of the standard, translator, harness. The time strings of a foreign PDU enter '
-             'C04_sm_decode through smpp_to_time (C17); UDH with information elements other than concatenation first is outside. Proved '
-             'for the code after fixes 7dca4fc, d468104, 0c64b68 (bind response without body), 5ac7354 (final zero octet of Octet String TLVs). No axioms.',
+             'C04_sm_decode through smpp_to_time (C17); User Data Headers with any information elements before / after the concatenation element, or none, are covered (C04_udh_any_order). Proved '
+             'for the code after fixes 7dca4fc, d468104, 0c64b68 (bind response without body), 5ac7354 (final zero octet of Octet String TLVs), 9e89d20 (UDH read as if the concatenation element came first). No axioms.',
         technique='Coq proof: refinement of the model encoder to an independent specification layout + table sweeps; differential check against an independent reference encoder/decoder',
         design='6 (C04)'),
     'C12': dict(
